@@ -208,10 +208,6 @@ RegistryT<ArgsT<TG_, TSL_, TRL_, NCC_, NOC_, NOU_, TRO_ HFSM2_IF_SERIALIZATION(,
 			{
 				requested   = parent.prong;
 			}
-			else {
-				parent = forkParent(parent.forkId);
-				break;
-			}
 		}
 		else
 		if (parent.forkId < 0)
